@@ -1,15 +1,9 @@
-(* Driver.v — thin entry points of the executable models, as called by ocaml/driver.ml.
-   Numbers cross the boundary as N (binary), byte strings as list byte. *)
+(* Drv/Diff.v — entry points of the Diff model as called by ocaml/handlers/Diff.ml. *)
 From Coq Require Import List NArith Bool.
 From Coq Require Import Strings.Byte.
-From PFF Require Import Bytes Vote.
+From PFF Require Import Bytes Diff.
 Import ListNotations.
 
-Definition drv_vote (bs : N) (copies : list (list byte)) : list byte * N :=
-  let '(o, s) := vote_chunked byte_eqb (N.to_nat bs) copies in (o, N.of_nat s).
-
-(* ---- C20 ---- *)
-From PFF Require Import Diff.
 Fixpoint assoc (k : list byte) (l : list (list byte * list byte)) : option (list byte) :=
   match l with
   | [] => None
